@@ -54,7 +54,8 @@ def container_field_domains():
     # (ROOT is replaced by the scenario's scratch root): each configured mount must arrive as written
     real = [[["ROOT/mnt/dir1", "/t1"]], [["ROOT/mnt/link1", "/t1"]], [["ROOT/mnt/dir1", "/t1"], ["ROOT/mnt/link1", "/t2"]],
             [["ROOT/mnt/dir1", "/t1"], ["ROOT/mnt/./dir1/../dir1", "/t2"], ["ROOT/mnt/link1", "/t3"]]]
-    return {"entrypoint": [None] + T, "command": cmds, "env": env_maps(), "ports": ports, "mounts": mounts + real}
+    # the CNB launcher as entrypoint (what every libcnb-test user writes), also with one-element commands
+    return {"entrypoint": [None] + T + ["launcher"], "command": cmds, "env": env_maps(), "ports": ports, "mounts": mounts + real}
 
 
 BUILD_DEFAULT = {"builder": "b:1", "env": [], "buildpacks": ["some/bp"], "app_dir": "fixture", "preprocessor": False}
@@ -70,6 +71,9 @@ def configs(thorough):
     for f, dom in cd.items():
         for v in dom:
             out.append((dict(BUILD_DEFAULT), dict(CONT_DEFAULT, **{f: v})))
+    # the launcher entrypoint with commands of one and two elements (the usual way to start a process type)
+    for cmd in (["web"], ["echo hi"], ["a", "b"], ["-c"]):
+        out.append((dict(BUILD_DEFAULT), dict(CONT_DEFAULT, entrypoint="launcher", command=cmd)))
     if thorough:
         # all pairs of fields over thinned domains
         fields = [("b", f, dom) for f, dom in bd.items()] + [("c", f, dom) for f, dom in cd.items()]
